@@ -186,6 +186,9 @@ def pSetup (s : String) : Option Setup :=
 def syncOps : List String → SyncContext → Transport → List String → Option (List String)
   | [], _, _, acc => some acc.reverse
   | op :: rest, s, t, acc =>
+    match (op.splitOn " ").filter (· ≠ "") with
+    | ["timeout", v] => syncOps rest (s.setTimeout (v ≠ "-")) t ("ok" :: acc)
+    | _ =>
     match pCliOp op with
     | none => none
     | some (.call req ext _, none) =>
@@ -324,7 +327,12 @@ def runOp (line : String) : Option String :=
         let svc : Service := fun i _ _ => outcomes.getD i .decline
         let (e, evs, f, _) := process k svc t
         let _ := f
-        pure (String.intercalate " | " (evs.map srvEvent ++ ["end " ++ srvEnd e]))
+        -- a service typed on the plain `Request` never sees the unit / slave id
+        let plain : Bool := field "svcty" fields == "req"
+        let ev (x : SrvEvent) : String := match x with
+          | .call _ r => if plain then "call ?? " ++ request r else srvEvent x
+          | x => srvEvent x
+        pure (String.intercalate " | " (evs.map ev ++ ["end " ++ srvEnd e]))
       | _ => none
     | [] => none
 
